@@ -53,12 +53,12 @@ var builtinExactArgs = map[string]int64{"new": 1, "len": 1, "cap": 1, "copy": 2,
 
 // r02bTable: audited arity drops, keyed "function|slice", applying only where a fact containing Need holds.
 var r02bTable = map[string]guardedReason{
-	"goose.Ctx.assignStmt|s.Rhs":     {"len(s.Lhs) <= 1", "Go typing: an assignment with one left-hand side has exactly one right-hand side"},
-	"goose.Ctx.varSpec|s.Values":     {"len(s.Names) <= 1", "Go typing: a var spec with one name has at most one value"},
-	"goose.Ctx.constSpec|spec.Values": {"len(spec.Names) <= 1", "Go typing: a const spec with one name has at most one value"},
-	"goose.Ctx.packageMethod|call.Args": {"\"DPrintf\" == f.Sel.Name", "documented hack in the source: util.DPrintf has no observable behaviour in GooseLang, its variadic arguments are deliberately replaced by #()"},
-	"goose.Ctx.makeSliceExpr|args":   {"", "args[0] is only the reported node of the rejection for a wrong argument count"},
-	"goose.Ctx.makeExpr|args":        {"", "make(T, n[, c]): the remaining arguments are consumed by makeSliceExpr, which rejects other counts"},
+	"goose.Ctx.assignStmt|s.Rhs":                                               {"len(s.Lhs) <= 1", "Go typing: an assignment with one left-hand side has exactly one right-hand side"},
+	"goose.Ctx.varSpec|s.Values":                                               {"len(s.Names) <= 1", "Go typing: a var spec with one name has at most one value"},
+	"goose.Ctx.constSpec|spec.Values":                                          {"len(spec.Names) <= 1", "Go typing: a const spec with one name has at most one value"},
+	"goose.Ctx.packageMethod|call.Args":                                        {"\"DPrintf\" == f.Sel.Name", "documented hack in the source: util.DPrintf has no observable behaviour in GooseLang, its variadic arguments are deliberately replaced by #()"},
+	"goose.Ctx.makeSliceExpr|args":                                             {"", "args[0] is only the reported node of the rejection for a wrong argument count"},
+	"goose.Ctx.makeExpr|args":                                                  {"", "make(T, n[, c]): the remaining arguments are consumed by makeSliceExpr, which rejects other counts"},
 	"goose.Ctx.constDecl|d.Specs[(phi:rangeindex + 1)].(*ValueSpec).Names":     {"", "registration of the first name only; constSpec (called next) rejects specs with several names"},
 	"goose.Ctx.globalVarDecl|d.Specs[(phi:rangeindex + 1)].(*ValueSpec).Names": {"", "registration of the first name only; constSpec (called next) rejects specs with several names"},
 }
@@ -143,14 +143,12 @@ func checkR02b(p *Prog, r *Report) {
 				// builtin with exact arity
 				hit := ""
 				if _, fld, ok := fieldOf(s.x.X); ok && fld == "Args" {
-					for fct := range rs {
-						if strings.Contains(fct, ".isBuiltin(") && strings.HasSuffix(fct, " == true") {
-							for name, n := range builtinExactArgs {
-								if strings.Contains(fct, ",\""+name+"\")") && n <= maxK+1 {
-									hit = fmt.Sprintf("Go typing: the predeclared %s takes exactly %d argument(s)", name, n)
-								}
-							}
+					for _, name := range p.resolvedBuiltinNames(rs) {
+						if n, ok := builtinExactArgs[name]; ok && n <= maxK+1 {
+							hit = fmt.Sprintf("Go typing: the predeclared %s takes exactly %d argument(s)", name, n)
 						}
+					}
+					for fct := range rs {
 						if strings.Contains(fct, ".IsType()") && strings.HasSuffix(fct, " == true") {
 							hit = "Go typing: a conversion has exactly one argument"
 						}
@@ -161,7 +159,7 @@ func checkR02b(p *Prog, r *Report) {
 				}
 				if hit != "" {
 					why = hit
-				} else if g, ok := r02bTable[key]; ok && (g.Need == "" || hasFactContaining(rs, g.Need)) {
+				} else if g, ok := auditFind(r02bTable, key); ok && hasFactCanon(rs, g.Need) {
 					why = "audited: " + g.Why
 				} else {
 					okAll = false
@@ -196,8 +194,9 @@ var acceptedRemainders = map[string]string{
 }
 
 // r02cAccepted: handlers in which an unmatched token legitimately falls through, with the reason.
-var r02cAccepted = map[string]string{
-	"goose.Ctx.callExpr|BasicLit.Kind": "the kind only selects the text of the Panic message (\"oops\" for anything but a string literal); the message has no meaning in GooseLang",
+// The entry applies on a path only where the facts resolve the call to the named predeclared function.
+var r02cAccepted = map[string]struct{ Builtin, Why string }{
+	"BasicLit.Kind": {"panic", "the kind only selects the text of the Panic message (\"oops\" for anything but a string literal); the message has no meaning in GooseLang"},
 }
 
 // tokenFieldKeyParts: for a relation operand that is a load of a token field, return "T.F".
@@ -245,7 +244,7 @@ func checkR02c(p *Prog, r *Report) {
 		for _, fk := range sortedKeys(fields) {
 			fld := fields[fk]
 			// does any path compare this field at all?
-			bad := ""
+			bad, accepted := "", ""
 			nRet, nCmp := 0, 0
 			for _, pt := range paths {
 				if _, isRet := pt.endsInReturn(); !isRet {
@@ -323,6 +322,22 @@ func checkR02c(p *Prog, r *Report) {
 						}
 					}
 				}
+				if acc, ok := r02cAccepted[fld.name]; ok {
+					rs := pt.rels()
+					for k := range p.entryRels(f) {
+						rs[k] = true
+					}
+					under := false
+					for _, nm := range p.resolvedBuiltinNames(rs) {
+						if nm == acc.Builtin {
+							under = true
+						}
+					}
+					if under {
+						accepted = acc.Why
+						continue
+					}
+				}
 				dom := tokenDomains[fld.name]
 				if dom != nil {
 					var rem []string
@@ -352,8 +367,8 @@ func checkR02c(p *Prog, r *Report) {
 			if nCmp == 0 {
 				continue // the field is only forwarded or printed here
 			}
-			if why, ok := r02cAccepted[FuncName(f)+"|"+fld.name]; ok && bad != "" {
-				r.OK("R02c", fmt.Sprintf("%s dispatch on %s (%s)", FuncName(f), fld.name, fk), f.Pos(), "audited fall-through: "+why)
+			if accepted != "" && bad == "" {
+				r.OK("R02c", fmt.Sprintf("%s dispatch on %s (%s)", FuncName(f), fld.name, fk), f.Pos(), "audited fall-through: "+accepted)
 				continue
 			}
 			r.Check("R02c", fmt.Sprintf("%s dispatch on %s (%s)", FuncName(f), fld.name, fk), f.Pos(), bad == "", bad)
@@ -364,96 +379,164 @@ func checkR02c(p *Prog, r *Report) {
 // ---------------------------------------------------------------------------
 // R02d resolved recognition
 
-// knownLookalikes: spelling-based recognisers of packages, grouped by function (recorded as known findings elsewhere).
+// spellingClass: v is the spelling of an identifier (ast.Ident.Name, possibly returned through
+// repository helpers) or the name of a type's package (Pkg().Name()).
+func spellingClass(v ssa.Value, depth int) string {
+	if depth > 4 {
+		return ""
+	}
+	switch x := v.(type) {
+	case *ssa.UnOp:
+		if x.Op == token.MUL {
+			if fa, ok := x.X.(*ssa.FieldAddr); ok {
+				st := deref(fa.X.Type()).Underlying().(*types.Struct)
+				if st.Field(fa.Field).Name() == "Name" && types.TypeString(deref(fa.X.Type()), nil) == "go/ast.Ident" {
+					// x.Sel.Name of a selector is a field or method name, not a free identifier
+					if ld, ok := fa.X.(*ssa.UnOp); ok {
+						if f2, ok := ld.X.(*ssa.FieldAddr); ok {
+							st2 := deref(f2.X.Type()).Underlying().(*types.Struct)
+							if st2.Field(f2.Field).Name() == "Sel" {
+								return ""
+							}
+						}
+					}
+					return "identifier"
+				}
+			}
+		}
+	case *ssa.Call:
+		if x.Call.IsInvoke() && x.Call.Method.Name() == "Name" {
+			if c, ok := x.Call.Value.(*ssa.Call); ok && c.Call.IsInvoke() && c.Call.Method.Name() == "Pkg" {
+				return "package name of a type (Pkg().Name())"
+			}
+			if c, ok := x.Call.Value.(*ssa.Call); ok && !c.Call.IsInvoke() {
+				if cal := c.Call.StaticCallee(); cal != nil && cal.Name() == "Pkg" && cal.Pkg != nil && cal.Pkg.Pkg.Path() == "go/types" {
+					return "package name of a type (Pkg().Name())"
+				}
+			}
+			return ""
+		}
+		if cal := x.Call.StaticCallee(); cal != nil {
+			if cal.Name() == "Name" && cal.Pkg != nil && cal.Pkg.Pkg.Path() == "go/types" && len(x.Call.Args) == 1 {
+				if c, ok := x.Call.Args[0].(*ssa.Call); ok {
+					if c2 := c.Call.StaticCallee(); (c2 != nil && c2.Name() == "Pkg") || (c.Call.IsInvoke() && c.Call.Method.Name() == "Pkg") {
+						return "package name of a type (Pkg().Name())"
+					}
+				}
+				return ""
+			}
+			if cal.Pkg != nil && InRepo(cal.Pkg.Pkg.Path()) && cal.Signature.Results().Len() == 1 {
+				return spellingOfReturns(cal, 0, depth)
+			}
+		}
+	case *ssa.Extract:
+		if c, ok := x.Tuple.(*ssa.Call); ok {
+			if cal := c.Call.StaticCallee(); cal != nil && cal.Pkg != nil && InRepo(cal.Pkg.Pkg.Path()) {
+				return spellingOfReturns(cal, x.Index, depth)
+			}
+		}
+	case *ssa.Phi:
+		for _, e := range x.Edges {
+			if c := spellingClass(e, depth+1); c != "" {
+				return c
+			}
+		}
+	}
+	return ""
+}
+
+func spellingOfReturns(cal *ssa.Function, idx int, depth int) string {
+	for _, b := range cal.Blocks {
+		if ret, ok := b.Instrs[len(b.Instrs)-1].(*ssa.Return); ok && idx < len(ret.Results) {
+			if c := spellingClass(ret.Results[idx], depth+1); c != "" {
+				return c
+			}
+		}
+	}
+	return ""
+}
+
+// checkR02d: spelling-based recognition, one obligation per (class, literal) — independent of
+// which function does the comparison, so moving a recogniser does not change the verdict.
 func checkR02d(p *Prog, r *Report) {
-	isIdentF := p.Func(Mod, "isIdent")
+	rec := p.resolvedRecognisers()
+	type hit struct {
+		pos token.Pos
+		fns map[string]bool
+	}
+	spell := map[string]*hit{} // "class: lit"
+	add := func(cls, lit string, pos token.Pos, f *ssa.Function) {
+		k := cls + ": " + lit
+		if spell[k] == nil {
+			spell[k] = &hit{pos: pos, fns: map[string]bool{}}
+		}
+		spell[k].fns[FuncName(f)] = true
+	}
 	for _, f := range p.FuncsIn(Mod) {
-		if f.Parent() != nil {
-			continue
+		if rec[f] {
+			continue // its comparisons are conjoined with the resolution (checked by resolvedRecognisers)
 		}
 		rm := p.Rels(f)
-		spellings := map[string][]string{} // class -> literals
-		var firstPos token.Pos
 		p.instrs(f, func(b *ssa.BasicBlock, i int, in ssa.Instruction) {
-			// isIdent(e, LIT)
-			if c, ok := in.(*ssa.Call); ok && isIdentF != nil && calleeOf(&c.Call) == isIdentF {
-				lit, _ := constString(c.Call.Args[1])
-				// resolved if this very call is the argument of isBuiltin's conjunction: isBuiltin does not use isIdent, so any direct isIdent is spelling-only
-				cls := "package-or-type name"
-				if types.Universe.Lookup(lit) != nil {
-					cls = "predeclared name"
-				}
-				spellings[cls] = append(spellings[cls], lit)
-				if !firstPos.IsValid() {
-					firstPos = instrPos(in)
-				}
-				return
-			}
-			// comparisons of Ident.Name / Pkg().Name() with a literal
 			bo, ok := in.(*ssa.BinOp)
 			if !ok || (bo.Op != token.EQL && bo.Op != token.NEQ) {
 				return
 			}
 			for _, pr := range [][2]ssa.Value{{bo.X, bo.Y}, {bo.Y, bo.X}} {
-				lit, ok := constString(pr[1])
-				if !ok {
+				if t, ok := pr[1].Type().Underlying().(*types.Basic); !ok || t.Info()&types.IsString == 0 {
 					continue
 				}
-				k := sk(pr[0])
-				switch {
-				case strings.HasSuffix(k, ".Pkg().Name()"):
-					spellings["package name of a type (Pkg().Name())"] = append(spellings["package name of a type (Pkg().Name())"], lit)
-					if !firstPos.IsValid() {
-						firstPos = instrPos(in)
+				cls := spellingClass(pr[0], 0)
+				if cls == "" {
+					continue
+				}
+				lits, _ := p.litOperands(pr[1], in, 0)
+				for _, ls := range lits {
+					lit := ls.Lit
+					if lit == "_" {
+						continue // the blank identifier never denotes a declared object: no look-alike exists
 					}
-				case strings.HasSuffix(k, ".Name") && !strings.Contains(k, ".Sel.Name") && f.Name() != "isIdent" && f.Name() != "isBuiltin":
-					// identifier spelled like a predeclared name
-					if types.Universe.Lookup(lit) != nil {
-						rs := p.RelsAt(rm, in)
-						if !hasFactContaining(rs, ".goBuiltin(") && !hasFactContaining(rs, ".isBuiltin(") {
-							spellings["predeclared name"] = append(spellings["predeclared name"], lit)
-							if !firstPos.IsValid() {
-								firstPos = instrPos(in)
+					c := cls
+					if cls == "identifier" {
+						if types.Universe.Lookup(lit) != nil {
+							if _, isConst := pr[1].(*ssa.Const); isConst && p.hasRecogniserFact(p.RelsAt(rm, in)) {
+								continue // compared only after the identifier was resolved to the predeclared object
 							}
+							c = "predeclared name"
+						} else {
+							c = "package-or-type name"
 						}
 					}
+					add(c, lit, ls.Pos, ls.Fn)
 				}
 			}
 		})
-		for _, cls := range sortedKeys(spellings) {
-			lits := spellings[cls]
-			sort.Strings(lits)
-			lits = uniq(lits)
-			r.Fail("R02d", fmt.Sprintf("%s recognises by spelling: %s %v", FuncName(f), cls, lits), firstPos,
-				fmt.Sprintf("the meaning of %s %v is chosen by comparing an identifier's spelling, not the object it resolves to: a user-defined package, type or function of the same name is given the meaning of the recognised one", cls, lits), "")
-		}
+	}
+	for _, k := range sortedKeys(spell) {
+		h := spell[k]
+		r.Fail("R02d", "recognised by spelling: "+k, h.pos,
+			fmt.Sprintf("the meaning is chosen by comparing an identifier's spelling with this literal, not the object it resolves to: a user-defined package, type or function of the same name is given the meaning of the recognised one (compared in %v)", sortedKeys(h.fns)), "")
 	}
 	// the resolved recognisers themselves
-	for _, name := range []string{"Ctx.goBuiltin", "Ctx.isBuiltin"} {
-		f := p.Func(Mod, name)
-		if f == nil {
-			r.Anchor("R02d", "goose."+name)
-			continue
-		}
-		okRes := false
-		p.instrs(f, func(b *ssa.BasicBlock, i int, in ssa.Instruction) {
-			if c, ok := in.(*ssa.Call); ok && (strings.HasSuffix(calleeName(c), ".goBuiltin") || strings.HasSuffix(calleeName(c), ".Parent")) {
-				okRes = true
-			}
-		})
-		r.Check("R02d", "goose."+name+" resolves through types.Info", f.Pos(), okRes, "the recogniser of predeclared names must consult the identifier's object (Parent() == Universe)")
+	bases := p.universeBases()
+	r.Check("R02d", "a recogniser of predeclared names consults the identifier's object (Parent() == Universe)", token.NoPos, len(bases) >= 1, fmt.Sprintf("%d base recogniser(s)", len(bases)))
+	var names []string
+	for f := range rec {
+		names = append(names, FuncName(f))
+		r.Func(FuncName(f))
 	}
-	// every call of isBuiltin in callExpr / methodExpr is what selects the builtin translations
+	sort.Strings(names)
+	r.Table("resolved recognisers of predeclared names", names)
+	// the builtin translations are selected under resolved facts
 	n := 0
-	ib := p.Func(Mod, "Ctx.isBuiltin")
 	for _, f := range p.FuncsIn(Mod) {
 		p.instrs(f, func(b *ssa.BasicBlock, i int, in ssa.Instruction) {
-			if c, ok := in.(*ssa.Call); ok && ib != nil && calleeOf(&c.Call) == ib {
+			if c, ok := in.(*ssa.Call); ok && rec[calleeOf(&c.Call)] && !rec[f] {
 				n++
 			}
 		})
 	}
-	r.Check("R02d", "predeclared functions and types are recognised through isBuiltin", token.NoPos, n >= 12, fmt.Sprintf("%d resolved recognitions", n))
+	r.Check("R02d", "predeclared functions and types are recognised through the resolved recognisers", token.NoPos, n >= 3, fmt.Sprintf("%d resolved recognition call sites", n))
 }
 
 func uniq(s []string) []string {
